@@ -116,7 +116,9 @@ def validate_chunks(ctx, ev, name, chunk=4000, timeout=900, par=3):
 
     def one(job):
         k, off, p = job
-        tr = ctx.tlc_trace("HttpRouter_Trace", TRACE_CFG, p, timeout=timeout, deque=False)
+        # one configuration file per chunk: ctx.tlc_trace writes <module>_<hash of the text>.cfg each time it is called, and
+        # a TLC process of another thread that reads the file at that moment would see it truncated
+        tr = ctx.tlc_trace("HttpRouter_Trace", TRACE_CFG + "\\* chunk %d\n" % k, p, timeout=timeout, deque=False)
         return k, off, tr
 
     res = {}
